@@ -5,13 +5,15 @@ sys.path.insert(0, os.path.dirname(os.path.abspath(__file__)))
 sys.path.insert(0, os.path.join(os.path.dirname(os.path.dirname(os.path.abspath(__file__))), 'contracts'))
 import kmirror, registry
 with kmirror.MirrorLock():
-    kmirror.build_mirror()
     # build the dependencies once per crate by running one trivial harness each
     first = {}
     for h, spec in registry.HARNESSES.items():
         key = (spec['crate'], tuple(spec['features']) if spec.get('features') is not None else None)
         first.setdefault(key, (h, spec))
     for key, (h, spec) in first.items():
+        # harness modules are injected only into the crate under verification (as a
+        # dependency a crate may be built with other cargo features)
+        kmirror.build_mirror(only_crate=key[0])
         r = kmirror.run_group(key[0], list(key[1]) if key[1] is not None else None, [kmirror.harness_path(spec['file'], h)], nproc=2, timeout=1800)
         v = list(r.values())[0]['verdict']
         print('warm-up', key, h, v)
